@@ -14,7 +14,7 @@ import (
 var issueSets = [][]string{{"openid", "profile", "offline_access"}, {"openid", "offline_access"}, {"openid", "email"}, {"openid"}}
 
 // subject / actor kinds of the matrix
-var kinds = []string{"opaque-at", "jwt-at", "rt", "idtok", "foreign", "expired", "revoked", "garbage", "colon-subject",
+var kinds = []string{"opaque-at", "jwt-at", "rt", "idtok", "foreign", "expired", "revoked", "garbage", "colon-subject", "third-party", "third-party",
 	"opaque-at", "jwt-at", "rt", "idtok", "colon-subject", "opaque-at", "jwt-at", "rt", "idtok"}
 
 type hist struct {
@@ -59,6 +59,8 @@ func (x *hist) pick(kind string) *h.Tok {
 		if len(x.revoked) > 0 {
 			t = drv.Pick(r, x.revoked)
 		}
+	case "third-party": // vouched for as subject only / actor only / both / not at all
+		t = w.ExtTok("SABN"[r.IntN(4)], drv.Pick(r, []string{"alice", "bob", "a:b", "eve"}))
 	case "foreign":
 		switch r.IntN(4) {
 		case 0:
@@ -87,6 +89,8 @@ func natural(t *h.Tok) string {
 		return "TRefresh"
 	case "idtok":
 		return "TId"
+	case "ext-S", "ext-A", "ext-B", "ext-N":
+		return "TJwt"
 	}
 	return "TAccess"
 }
@@ -158,7 +162,9 @@ func history(r drv.Rand, idx int) *h.World {
 				w.Tags["cred=public"] = true
 			}
 		case k < 18:
-			e.Cred = h.Cred{Kind: "basic", ID: "web", Sec: "wrong"}
+			var ck string
+			e.Cred, ck = w.Unproven(drv.Pick(r, []string{"web", "web2", "webnr", "native", "spa", "pkjwt"}))
+			w.Tags["cred="+ck] = true
 		case k < 19:
 			e.Cred = h.Cred{Kind: "basic", ID: "nosuch", Sec: "x"}
 		default:
